@@ -17,6 +17,7 @@ pub mod gen01;
 pub mod rewrite;
 pub mod gen03;
 pub mod gen04;
+pub mod gen05;
 pub mod gen06;
 pub mod gen17;
 
